@@ -27,7 +27,7 @@ def seeded():
         e = json.load(open(m))
         name = os.path.basename(os.path.dirname(m))
         out.append("| %s | %s | %s | %s | %s |" % (name, e["property"], e["needs_to_manifest"].replace("|", "/")[:200],
-                                               "yes" if e["detected"] else "NO", (e.get("notes") or "").replace("|", "/")[:300]))
+                                               "yes" if e["detected"] else ("obsolete" if e.get("obsolete") else "NO"), (e.get("notes") or "").replace("|", "/")[:420]))
     return "\n".join(out)
 
 
